@@ -6,6 +6,7 @@ CONSTANTS
   Vals <- V1
   MaxOps = 3
   WrapUpperBound = FALSE
+  FilterForeign = TRUE
 VIEW view
 INVARIANTS TypeOK WindowExact Disjoint
 PROPERTIES Frame
